@@ -143,7 +143,8 @@ InfoChecks(a, r, o) ==
             BmpDeviceType |-> shape => rep.device[1] = "BMP",
             BmpSoftwareIsBmps |-> shape => /\ rep.software[1] = <<"BC&MP", Tr.bmp.version, "", Civil(Tr.bmp.date)>>
                                            /\ rep.code_block[1] = Tr.bmp.code_block /\ rep.board[1] = 0,
-            BmpSuppliesAreAdcs |-> shape => /\ \A k \in 1..3 : VoltsShown(rep.v12[1][k], raw[k + 1], 10)
+            \* the three 1.2 V rails are printed as a, b, c; the BMP reports them as c, b, a (words 1, 2, 3 of the reply)
+            BmpSuppliesAreAdcs |-> shape => /\ \A k \in 1..3 : VoltsShown(rep.v12[1][k], raw[5 - k], 10)
                                             /\ VoltsShown(rep.v18[1], raw[5], 10)
                                             /\ VoltsShown(rep.v33[1], raw[7], 15)
                                             /\ VoltsShown(rep.vin[1], raw[8], 60),
